@@ -516,11 +516,65 @@ def r09d(ctx, sites):
         raise AnalysisError("R09d: no three-way cut of a text node found")
 
 
+def r09e(ctx):
+    """What is inserted by position is a new element, never one taken out of the tree.
+
+    lxml moves a node together with its tail: inserting an element that already sits in the paragraph drags the text that followed it along
+    (and `Element._insert` then overwrites that tail with the text after the new position, so the dragged text is gone).  The insertion
+    helpers of Paragraph therefore build a fresh element — or delete the old one first, which re-attaches its tail.  Rule: the element
+    handed to `self._insert(…)` is, on every path (reaching definitions), the result of a constructor call or a parameter; a node looked up
+    in the tree (get_*/xpath/children …) is a violation.
+    """
+    repo = ctx.repo
+    ctx.rule("R09e", "the element handed to _insert() is newly built (or a caller's), not a node already in the tree", floor=8)
+    n = 0
+    for cname in ("Paragraph", "Element", "ParagraphBase"):
+        c = repo.find_class(cname)
+        if c is None:
+            continue
+        for name, fs in c.methods.items():
+            f = fs[0]
+            calls_ = [x for x in walk_no_nested(f.node) if isinstance(x, ast.Call) and call_name(x) == "_insert" and is_self_attr(x.func) and x.args]
+            if not calls_:
+                continue
+            cfg = cfg_of(f)
+            params = {a.arg for a in f.all_params()}
+            byid = {nd.id: nd for nd in cfg.nodes}
+            for x in calls_:
+                e = x.args[0]
+                n += 1
+                bad = None
+                if isinstance(e, ast.Name):
+                    for d in reaching_defs(cfg, e.id).get(node_of(cfg, x).id, frozenset()):
+                        if d == cfg.entry.id:
+                            if e.id not in params:
+                                bad = "possibly unbound"
+                            continue
+                        st = byid[d].stmt
+                        v = st.value if isinstance(st, (ast.Assign, ast.AnnAssign)) else None
+                        built = isinstance(v, ast.Call) and isinstance(v.func, ast.Name) and v.func.id[:1].isupper()
+                        from_param = isinstance(v, ast.Name) and v.id in params
+                        cloned = isinstance(v, ast.Attribute) and v.attr == "clone"
+                        if not (built or from_param or cloned):
+                            bad = norm(st, 50)
+                elif not (isinstance(e, ast.Call) and isinstance(e.func, ast.Name) and e.func.id[:1].isupper()):
+                    bad = norm(e, 50)
+                ctx.instance("R09e", f"{f.file}:{f.ident}", f"_insert({norm(e, 25)}, …): " + ("newly built / caller's element" if bad is None else f"may be a node of the tree ({bad})"),
+                             ok=bad is None, nontrivial=True, line=x.lineno)
+                if bad is not None:
+                    ctx.report("R09e", f, x, f"_insert({norm(e, 30)}, …) where `{norm(e, 20)}` comes from `{bad}`",
+                               f"{cname}.{name} inserts an element that may already sit in the tree: lxml moves it with its tail, so the text that followed the old position "
+                               f"is dragged along and then overwritten — the paragraph loses text although only markup was meant to move")
+    if n == 0:
+        raise AnalysisError("R09e: no _insert() call found")
+
+
 def run(ctx):
     r09a(ctx)
     r09b(ctx)
     r09c(ctx)
     r09d(ctx, _cut_sites(ctx.repo)[0])
+    r09e(ctx)
 
 
 from ..selftest import Seed, unparse_seed  # noqa: E402
@@ -528,6 +582,9 @@ from ..selftest import Seed, unparse_seed  # noqa: E402
 _P = "src/odfdo/paragraph.py"
 _EL = "src/odfdo/element.py"
 SEEDS = [
+    Seed("reference-mark end tag is moved instead of rebuilt", "fault", _P,
+         "        existing_end_tag = self.get_reference_mark_end(name=name)\n        if existing_end_tag:\n            existing_end_tag.delete()\n\n        # create the end tag\n        end_tag = ReferenceMarkEnd(name)\n",
+         "        end_tag = self.get_reference_mark_end(name=name)\n        if not end_tag:\n            end_tag = ReferenceMarkEnd(name)\n", "R09e"),
     Seed("offset arm clamps the length by the paragraph-global offset", "fault", _P,
          "                    length = min(length, len(text))  # type: ignore", "                    length = min(length, len(text) - offset)  # type: ignore", "R09d"),
     Seed("offset arm takes the caller's length as it comes", "fault", _P,
